@@ -71,6 +71,9 @@ func (w *World) genParamChange(r *Rng, tApp app.TestApp, ctx sdk.Context, used m
 		pid := props[r.Intn(len(props))].ID
 		return w.Sign(tApp, signer, committeetypes.NewMsgVote(w.Addrs[signer], pid, committeetypes.VOTE_TYPE_YES)), "committee.vote"
 	}
+	if w.MalformedParams && r.Chance(1, 4) {
+		return w.genMalformedParamChange(r, tApp, ctx, used)
+	}
 	var changes []paramsproposal.ParamChange
 	var desc string
 	kind := r.Pick(5, 5, 3, 3, 2, 2, 1, 1, 2)
